@@ -111,6 +111,9 @@ func NewCaseWriter(t *testing.T, prop, module string) *CaseWriter {
 		Stats: map[string]int{}, distinct: map[string]bool{}}
 }
 
+// NewCaseWriterNamed writes a second family of case files for the same property (own Coq module, own file prefix).
+func NewCaseWriterNamed(t *testing.T, name, module string) *CaseWriter { return NewCaseWriter(t, name, module) }
+
 // Add appends one case. lit is the Gallina literal of the case (without id);
 // mk is a function of the id producing the full literal. js is the replayable
 // JSON description of the same case. nontrivial says whether the case satisfies
